@@ -35,7 +35,7 @@ func ExitsOf(c *Ctx, fn *ssa.Function) ([]ExitInfo, bool) {
 		}
 		ei := ExitInfo{Ret: ret, St: st, Ex: ex}
 		for _, r := range ret.Results {
-			ei.Results = append(ei.Results, ex.Resolve(st, r))
+			ei.Results = append(ei.Results, ex.ResolveDeep(st, r))
 			ei.Canon = append(ei.Canon, ex.Canon(st, r).S)
 		}
 		s.exits = append(s.exits, ei)
